@@ -91,6 +91,14 @@ class Ctx:
             if os.path.abspath(src) != os.path.abspath(os.path.join(d, name)):
                 shutil.copyfile(src, os.path.join(d, name))
         open(os.path.join(d, "run.cfg"), "w").write(cfg_text)
+        for k, v in (getattr(self, "module_subst", None) or {}).items():
+            mp = os.path.join(d, module + ".tla")
+            txt = open(mp).read()
+            a, b = "(* @%s@ *)" % k, "(* @/%s@ *)" % k
+            if a not in txt or b not in txt:
+                raise Broken("module %s has no markers for %s" % (module, k))
+            txt = txt[:txt.index(a) + len(a)] + " " + str(v) + " " + txt[txt.index(b):]
+            open(mp, "w").write(txt)
         heap = os.environ.get("VERIF_TLC_HEAP", "12g")
         cmd = ["java", "-XX:+UseParallelGC", "-Xmx" + heap, "-Xss64m", *jvm,
                "-cp", "/opt/veriftools/tla/tla2tools.jar:/opt/veriftools/tla/CommunityModules-deps.jar",
